@@ -652,6 +652,25 @@ def main(tier):
                                  % (label, len(e), micros, bound), {"kind": "depth-time", "graph": label, "modules": n, "imports": len(e), "micros": stats["depth_time_micros"]})
             if stop:
                 break
+    # ----- what is left of F21: inside strongly connected parts the search still enumerates simple paths (theorem
+    # C06_depth_cyclic_enumeration_observation): measured on complete digraphs (every module imports every other) - finding F72
+    if ck.go_ok:
+        try:
+            def clique(n):
+                ms = ["q%02d" % i for i in range(n)]
+                return {"op": "maxdepth", "modules": ms, "edges": [[a, b] for a in ms for b in ms if a != b]}
+            tq = lib.driver([clique(6), clique(8), clique(9)], timeout=120)
+            mq = [max(1, x.get("micros", 1)) for x in tq]
+            stats["clique_micros"] = {"6": mq[0], "8": mq[1], "9": mq[2]}
+            if mq[2] > 20 * mq[0] and mq[2] > 50000:
+                kf = ck.match_known({"class": "cyclic-import-graph-depth"})
+                if kf is not None:
+                    ck.known_finding(kf)
+                else:
+                    ck.violation("calculateMaxDepth time explodes on a complete import digraph: 6 modules %d us, 8 modules %d us, 9 modules %d us" % tuple(mq),
+                                 {"kind": "depth-time-cyclic", "micros": stats["clique_micros"]})
+        except Exception as ex_:
+            ck.notes.append("clique timing not measured: " + str(ex_)[-200:])
     ck.samples = [{"label": l, "content_head": c[:60].decode("latin-1")} for l, c in bads[:6]]
     ck.cov.update({
         "evaluations": stats["mixed_runs"] + stats["alone_runs"] + stats["role_runs"] + stats["surface_runs"] + stats["wide_runs"] + stats["mock_runs"] + stats["format_runs"] + stats["nesting_runs"] + stats["depth_graphs"],
